@@ -50,6 +50,8 @@ def obligations(tier):
            [F['del'], F['clean']], module=G, func='g_quick3', timeout=600, shards=2),
         Ob('G.many', 'E', 'repositories holding up to 43 snapshots (> 10 x concurrency): clean/delete safe and complete', '6 snapshot counts x 2 concurrency x 3 commands x 3 reference patterns = 108',
            [F['del'], F['clean'], F['load']], module=G, func='g_many', timeout=900),
+        Ob('G.hash', 'E', 'the G.e state vectors in encrypted repositories whose hash is blake2b-256 or SHA-256 (digest size != size of the MAC that names objects): delete/clean safe, complete and confined',
+           'every 3rd of 2160 vectors x alternating hash = 720', [F['del'], F['clean']], module=G, func='g_hash', timeout=900, shards=2),
         Ob('G.fault', 'E', 'one backend call of clean/delete (k-th download, delete or existence check) fails for good with a backend error, timeout, connection reset or EIO: every snapshot still in the store keeps its chunks (all users), nothing foreign is removed, the command does not report success',
            '2 callers x 9 owner pairs x 16 ref matrices x 3 commands x 6 failing calls = 5184 (error type rotating; thorough: x 4 error types = 20736)', [F['del'], F['clean'], F['load']], module=G, func='g_fault', timeout=900, shards=8, tiers=('quick',)),
         Ob('G.fault', 'E', 'same, full product with the 4 error types', '20736', [F['del'], F['clean'], F['load']], module=G, func='g_fault_full', timeout=1800, shards=16, tiers=('thorough',)),
